@@ -93,7 +93,8 @@ Qed.
 (* ---- the text form of a key --------------------------------------------------- *)
 Lemma hex_roundtrip : forall b, Forall (fun x => 0 <= x) b -> hex_dec (hex_enc b) = b.
 Proof.
-  induction 1 as [|x b Hx _ IH]; [reflexivity|]. cbn [hex_enc hex_dec map] in *. rewrite IH. f_equal.
+  induction 1 as [|x b Hx _ IH]; [reflexivity|].
+  unfold hex_dec, hex_enc in *. cbn [map]. rewrite IH. f_equal.
   destruct (x <? 16) eqn:E.
   - apply Z.ltb_lt in E. rewrite Z.mod_small by lia. lia.
   - pose proof (Z.div_mod x 16). lia.
